@@ -618,9 +618,9 @@ def array_case(draw, tier):
 
 
 SUBCHECKS = [
-    Sub('C04.derive_then_mutate', run_history, strategy=pair_case, examples={'quick': 12000, 'thorough': 200000}),
-    Sub('C04.external_source', run_history, strategy=source_case, examples={'quick': 5000, 'thorough': 60000}),
-    Sub('C04.immutable_surface', run_history, strategy=immutable_case, examples={'quick': 4000, 'thorough': 50000}),
-    Sub('C04.array', run_history, strategy=array_case, examples={'quick': 3000, 'thorough': 40000}),
-    Sub('C04.history', run_history, strategy=history_st(), examples={'quick': 4000, 'thorough': 60000}),
+    Sub('C04.derive_then_mutate', run_history, strategy=pair_case, ambient=('bytealigned',), examples={'quick': 12000, 'thorough': 200000}),
+    Sub('C04.external_source', run_history, strategy=source_case, ambient=('bytealigned',), examples={'quick': 5000, 'thorough': 60000}),
+    Sub('C04.immutable_surface', run_history, strategy=immutable_case, ambient=('bytealigned',), examples={'quick': 4000, 'thorough': 50000}),
+    Sub('C04.array', run_history, strategy=array_case, ambient=('bytealigned',), examples={'quick': 3000, 'thorough': 40000}),
+    Sub('C04.history', run_history, strategy=history_st(), ambient=('bytealigned',), examples={'quick': 4000, 'thorough': 60000}),
 ]
